@@ -21,6 +21,7 @@ def main():
     only = None; cross = "--cross" in args; tests = "--tests" in args; tier = "quick"; seeded = "--seeded" in args; benign = "--benign" in args
     if "--only" in args: only = args[args.index("--only") + 1]
     if "--tier" in args: tier = args[args.index("--tier") + 1]
+    only_props = args[args.index("--props") + 1].split(",") if "--props" in args else None
     items = []
     if benign:
         cross = True
@@ -56,6 +57,7 @@ def main():
             rec["repo_tests_pass"] = (r1.returncode == 0 and r2.returncode == 0 and r3.returncode == 0)
             shutil.rmtree(bd, ignore_errors=True)
         props = CLAIMED if cross else [it["property"]]
+        if only_props: props = [p for p in props if p in only_props] or only_props
         env = dict(os.environ, VERIF_REPO=scratch, VERIF_EVIDENCE_DIR="build/tmp/mut-evidence", VERIF_REPLAY_DIR="build/tmp/mut-replays")
         for p in props:
             t0 = time.time()
@@ -65,7 +67,7 @@ def main():
             rec["checks"][p] = dict(exit=r.returncode, violation=bool(line), cls=(cls[0].split()[0][6:] if cls else ""), wall=round(time.time() - t0, 1))
             if r.returncode == 2:
                 rec["checks"][p]["fault"] = r.stdout[-400:]
-        own = rec["checks"][it["property"]]
+        own = rec["checks"].get(it["property"]) or next(iter(rec["checks"].values()))
         ok = (own["exit"] == 1 and own["violation"]) if it["expect"] == "fail" else (own["exit"] == 0)
         if it["expect"] == "silent-all":
             ok = all(c["exit"] == 0 for c in rec["checks"].values())
